@@ -1,9 +1,14 @@
 (* Props/C18.v — decomposition results do not depend on how the problem is presented (PARTIAL: exact-arithmetic theorems about
-   the CP-ALS model of Model/C09Als.v + Model/C09Loop.v; the other algorithms are tied by metamorphic correspondence only).
+   the CP-ALS model of Model/C09Als.v + Model/C09Loop.v — repr, print, scale, relabel — and scale equivariance of HOSVD / Tucker-ALS
+   on the rank rule of Model/C10Tucker.v and the abstract projector model of Proofs/C10Proofs.v; cp_apr, gcp_opt and the seed
+   relation are tied by metamorphic correspondence only).
    Only statements, `exact`, Print Assumptions and non-vacuity examples. *)
-From Coq Require Import List Arith Bool ZArith Ring Lia QArith Qcanon.
+Set Warnings "-ambiguous-paths".
+From Coq Require Import List Arith Bool ZArith Ring Lia QArith Qcanon Reals.
 From PV Require Import Base.Index Base.Perm Base.Sum Np.Array Model.Sparse Model.Repr Model.Harness Model.C09Als Model.C09Loop Model.C18Cmp
-  Proofs.C09Identity Proofs.C09Monotone Proofs.C09Scaling Proofs.C09LoopProofs Proofs.C18Repr.
+  Model.C10Tucker Np.NpR
+  Proofs.C09Identity Proofs.C09Monotone Proofs.C09Scaling Proofs.C09LoopProofs Proofs.C18Repr Proofs.C18Relabel
+  Proofs.C10Proofs Proofs.C18Tucker.
 Import ListNotations.
 
 Section C18.
@@ -55,18 +60,50 @@ Theorem C18_relabel_den : forall (K : ktensor V) (p : list nat) (i : idx),
   den_k v0 v1 vadd vmul (mkK (kweights K) (pick [] p (kfactors K))) (pick 0%nat p i) = den_k v0 v1 vadd vmul K i.
 Proof. exact (denk_pick V v0 v1 vadd vmul vsub vopp Vring). Qed.
 
-(* full algorithm-level relabelling statement — NOT proved (kept visible; tied by the relabel.cp_als correspondence pairs):
-   running the sweep model on the permuted data, permuted start and consistently mapped mode order gives the permuted iterates *)
-Definition C18_relabel_stmt : Prop :=
-  forall (s : shape) (X : idx -> V) (p : list nat) (solve : mx -> mx -> mx) (scale : nat -> mx -> list V * mx) (R k : nat)
-         (dims : list nat) (st : als_state V),
-  is_perm p (length s) -> map (@nrows V) (st_U st) = s ->
+(* C18_relabel (ALGORITHM level): running the CP-ALS sweep model on the permuted data X' = X.permute(p) (shape pick p s), the start
+   with its factor list permuted and the mode order mapped by m |-> index_of m p gives, after every number k of sweeps and for
+   every solve / column-scaling oracle, the same weights, the same saved mttkrp and the PERMUTED factor list (list equality) *)
+Theorem C18_relabel : forall (s : shape) (X : idx -> V) (p : list nat) (solve : mx -> mx -> mx) (scale : nat -> mx -> list V * mx)
+         (R k : nat) (dims : list nat) (st : als_state V),
+  is_perm p (length s) -> map (@nrows V) (st_U st) = s -> Forall (fun m => (m < length s)%nat) dims ->
   let X' := fun i' => X (pick 0%nat (invperm p) i') in
   let st' := mkAls (st_w st) (pick [] p (st_U st)) (st_P st) in
   let dims' := map (fun m => index_of m p) dims in
   let r := als_iter v0 v1 vadd vmul (fun U n => mttkrp_mat v0 v1 vadd vmul s X U n R) solve scale R k dims st in
   let r' := als_iter v0 v1 vadd vmul (fun U n => mttkrp_mat v0 v1 vadd vmul (pick 0%nat p s) X' U n R) solve scale R k dims' st' in
-  st_w r' = st_w r /\ st_U r' = pick [] p (st_U r).
+  st_w r' = st_w r /\ st_U r' = pick [] p (st_U r) /\ st_P r' = st_P r.
+Proof.
+  intros s X p solve scale R k dims st Hp.
+  exact (relabel_algorithm V v0 v1 vadd vmul vsub vopp Vring solve scale R s X p Hp k dims st).
+Qed.
+
+(* ... hence the model of the relabelled run denotes the relabelled array of the original run's model *)
+Theorem C18_relabel_model : forall (s : shape) (X : idx -> V) (p : list nat) (solve : mx -> mx -> mx) (scale : nat -> mx -> list V * mx)
+         (R k : nat) (dims : list nat) (st : als_state V) (i : idx),
+  is_perm p (length s) -> map (@nrows V) (st_U st) = s -> Forall (fun m => (m < length s)%nat) dims -> length i = length s ->
+  let X' := fun i' => X (pick 0%nat (invperm p) i') in
+  let st' := mkAls (st_w st) (pick [] p (st_U st)) (st_P st) in
+  let dims' := map (fun m => index_of m p) dims in
+  st_den V v0 v1 vadd vmul (als_iter v0 v1 vadd vmul (fun U n => mttkrp_mat v0 v1 vadd vmul (pick 0%nat p s) X' U n R) solve scale R k dims' st')
+         (pick 0%nat p i)
+  = st_den V v0 v1 vadd vmul (als_iter v0 v1 vadd vmul (fun U n => mttkrp_mat v0 v1 vadd vmul s X U n R) solve scale R k dims st) i.
+Proof.
+  intros s X p solve scale R k dims st i Hp.
+  exact (relabel_algorithm_den V v0 v1 vadd vmul vsub vopp Vring solve scale R s X p Hp k dims st i).
+Qed.
+
+(* C18_scale, Tucker side, concrete linear pieces (ring-generic): the mode-n product and the Gram matrix of the mode-n unfolding of
+   c.X, and a Tucker model whose core is scaled by c *)
+Theorem C18_ttm_scale : forall (c : V) (X : idx -> V) (In n : nat) (M : list (list V)) (i : idx),
+  ttm_den v0 vadd vmul (fun i => vmul c (X i)) In n M i = vmul c (ttm_den v0 vadd vmul X In n M i).
+Proof. exact (ttm_den_scale V v0 v1 vadd vmul vsub vopp Vring). Qed.
+Theorem C18_gram_scale : forall (c : V) (s : shape) (X : idx -> V) (n a b : nat),
+  gram_den v0 vadd vmul s (fun i => vmul c (X i)) n a b = vmul (vmul c c) (gram_den v0 vadd vmul s X n a b).
+Proof. exact (gram_den_scale V v0 v1 vadd vmul vsub vopp Vring). Qed.
+Theorem C18_tucker_core_scale : forall (c : V) (core core' : dense V) (Us : list (list (list V))),
+  dshape core' = dshape core -> (forall j, den_dense v0 core' j = vmul c (den_dense v0 core j)) ->
+  forall i, den_t v0 v1 vadd vmul (mkT core' Us) i = vmul c (den_t v0 v1 vadd vmul (mkT core Us) i).
+Proof. exact (den_t_scale_core V v0 v1 vadd vmul vsub vopp Vring). Qed.
 End C18.
 
 (* C18_print: printing branches of cp_als (Model/C09Loop.v, transliterated branch by branch) never touch the model state:
@@ -96,6 +133,73 @@ Theorem C18_print_silent : forall tol s0 m dofix (r : result St F), RUN tol 0 s0
 Proof. exact (@cpals_log_silent St F sweep fit_mttkrp fit_innerprod fchange_lt fit0 arrange fixsigns). Qed.
 End C18print.
 
+(* C18_scale for HOSVD: the rank rule of hosvd.py (Model/C10Tucker.v, over R) picks the same number of columns when the Gram
+   eigenvalues and the threshold tol^2 ||X||^2 / d are both multiplied by k = c^2 > 0 (data scaled by c) *)
+Theorem C18_hosvd_rank_scale : forall (eig : list R) (t k : R), (0 < k)%R ->
+  auto_rank 0%R Rplus Rltb (map (Rmult k) eig) (k * t)%R = auto_rank 0%R Rplus Rltb eig t.
+Proof. exact hosvd_rank_scale. Qed.
+Theorem C18_hosvd_ncols_scale : forall (user_rank : nat) (eig : list R) (t k : R), (0 < k)%R ->
+  ncols_impl 0%R Rplus Rltb user_rank (map (Rmult k) eig) (k * t)%R = ncols_impl 0%R Rplus Rltb user_rank eig t.
+Proof. exact hosvd_ncols_scale. Qed.
+
+(* the reported Tucker-ALS fit 1 - sqrt(|normX^2 - ||core||^2|)/normX is unchanged when both squared norms scale by c^2 *)
+Theorem C18_tucker_fit_scale : forall (c nx nc nx' nc' : R), (0 < c)%R -> (0 < nx)%R ->
+  nx' = (c * c * nx)%R -> nc' = (c * c * nc)%R ->
+  (1 - sqrt (Rabs (nx' - nc')) / sqrt nx' = 1 - sqrt (Rabs (nx - nc)) / sqrt nx)%R.
+Proof. exact tucker_fit_scale. Qed.
+
+(* abstract algorithm level (the projector model of C10: a real inner-product space E with a scalar multiplication): HOSVD chooses a
+   projector per mode from the current vector by an oracle `choose` (eigen-decomposition of the Gram matrix + rank rule) that is
+   invariant under positive scaling (C18_gram_scale + C18_hosvd_rank_scale: c^2 G has the eigenvectors of G and the same rank) and
+   whose projectors are homogeneous; Tucker-ALS updates an abstract factor state by an oracle `upd` (nvecs of X x_{m<>n} U_m^T) with
+   the same invariance and a linear analysis map A (core = X x_n U_n^T) *)
+Section C18tucker.
+Variable E : Type.
+Variables (sub : E -> E -> E) (inner : E -> E -> R) (smul : R -> E -> E).
+Hypothesis inner_sym : forall a b, inner a b = inner b a.
+Hypothesis inner_smul : forall c a b, inner (smul c a) b = (c * inner a b)%R.
+Hypothesis sub_smul : forall c a b, sub (smul c a) (smul c b) = smul c (sub a b).
+Variable choose : nat -> E -> (E -> E).
+Hypothesis choose_scale : forall n c x, (0 < c)%R -> choose n (smul c x) = choose n x.
+Hypothesis choose_homog : forall n y c x, (0 < c)%R -> choose n y (smul c x) = smul c (choose n y x).
+
+(* sequential or not, any mode order: same projectors, result scaled by c, relative error unchanged *)
+Theorem C18_hosvd_scale : forall (sequential : bool) (modes : list nat) (c : R) (x : E), (0 < c)%R ->
+  fst (hosvd E choose sequential modes (smul c x)) = fst (hosvd E choose sequential modes x) /\
+  snd (hosvd E choose sequential modes (smul c x)) = smul c (snd (hosvd E choose sequential modes x)).
+Proof. exact (hosvd_scale E smul choose choose_scale choose_homog). Qed.
+Theorem C18_hosvd_relerr_scale : forall (sequential : bool) (modes : list nat) (c : R) (x : E), (0 < c)%R ->
+  let r := snd (hosvd E choose sequential modes x) in let r' := snd (hosvd E choose sequential modes (smul c x)) in
+  nrm2 E inner (sub (smul c x) r') = (c * c * nrm2 E inner (sub x r))%R /\
+  (nrm2 E inner (sub (smul c x) r') * nrm2 E inner x = nrm2 E inner (sub x r) * nrm2 E inner (smul c x))%R.
+Proof. exact (hosvd_relerr_scale E sub inner smul inner_sym inner_smul sub_smul choose choose_scale choose_homog). Qed.
+
+Variables (Fs F : Type) (A : Fs -> E -> F) (smulF : R -> F -> F) (innerF : F -> F -> R).
+Variable upd : nat -> Fs -> E -> Fs.
+Hypothesis upd_scale : forall n U c x, (0 < c)%R -> upd n U (smul c x) = upd n U x.
+Hypothesis A_lin : forall U c x, (0 < c)%R -> A U (smul c x) = smulF c (A U x).
+Hypothesis innerF_smul : forall c a, innerF (smulF c a) (smulF c a) = (c * c * innerF a a)%R.
+
+(* Tucker-ALS after k sweeps in any mode order from the same start: identical factors, core scaled by c, residual scaled by c^2, fit equal *)
+Theorem C18_tucker_als_scale : forall (dimorder : list nat) (k : nat) (U0 : Fs) (c : R) (x : E), (0 < c)%R ->
+  let g := als_core E Fs F A upd dimorder k U0 x in let g' := als_core E Fs F A upd dimorder k U0 (smul c x) in
+  sweeps E Fs upd dimorder k U0 (smul c x) = sweeps E Fs upd dimorder k U0 x /\
+  g' = smulF c g /\
+  resid2 E inner F innerF (smul c x) g' = (c * c * resid2 E inner F innerF x g)%R /\
+  (resid2 E inner F innerF (smul c x) g' * nrm2 E inner x = resid2 E inner F innerF x g * nrm2 E inner (smul c x))%R /\
+  ((0 < nrm2 E inner x)%R -> fit_of E inner F innerF (smul c x) g' = fit_of E inner F innerF x g).
+Proof. exact (tucker_als_scale E inner smul inner_sym inner_smul Fs F A smulF innerF upd upd_scale A_lin innerF_smul). Qed.
+
+(* ... and the whole loop with its stopping test |fitold - fit| < stoptol: same iteration count, factors and fit; core scaled *)
+Theorem C18_tucker_als_loop_scale : forall (stoptol : R) (dimorder : list nat) (maxiters : nat) (U : Fs) (fit0 c : R) (x : E),
+  (0 < c)%R -> (0 < nrm2 E inner x)%R ->
+  als_loop E inner Fs F A innerF upd stoptol dimorder maxiters U fit0 (smul c x)
+  = als_loop E inner Fs F A innerF upd stoptol dimorder maxiters U fit0 x /\
+  A (fst (fst (als_loop E inner Fs F A innerF upd stoptol dimorder maxiters U fit0 (smul c x)))) (smul c x)
+  = smulF c (A (fst (fst (als_loop E inner Fs F A innerF upd stoptol dimorder maxiters U fit0 x))) x).
+Proof. exact (tucker_als_loop_scale E inner smul inner_sym inner_smul Fs F A smulF innerF upd upd_scale A_lin innerF_smul). Qed.
+End C18tucker.
+
 (* the comparer used by the generated metamorphic cases accepts identical value lists *)
 Theorem C18_cmp_refl : forall l : list Qc, qlists_close tol8 l l = true.
 Proof. intro l. exact (qlists_close_refl tol8 l tol8_nonneg). Qed.
@@ -105,6 +209,18 @@ Print Assumptions C18_repr_den.
 Print Assumptions C18_scale.
 Print Assumptions C18_scale_fit.
 Print Assumptions C18_relabel_den.
+Print Assumptions C18_relabel.
+Print Assumptions C18_relabel_model.
+Print Assumptions C18_ttm_scale.
+Print Assumptions C18_gram_scale.
+Print Assumptions C18_tucker_core_scale.
+Print Assumptions C18_hosvd_rank_scale.
+Print Assumptions C18_hosvd_ncols_scale.
+Print Assumptions C18_tucker_fit_scale.
+Print Assumptions C18_hosvd_scale.
+Print Assumptions C18_hosvd_relerr_scale.
+Print Assumptions C18_tucker_als_scale.
+Print Assumptions C18_tucker_als_loop_scale.
 Print Assumptions C18_print_state.
 Print Assumptions C18_print.
 Print Assumptions C18_print_silent.
@@ -119,4 +235,24 @@ Example C18_relabel_example :
   den_k 0%Z 1%Z Z.add Z.mul K [1; 2; 0]%nat = (-3)%Z /\
   den_k 0%Z 1%Z Z.add Z.mul K' (pick 0%nat p [1; 2; 0]%nat) = (-3)%Z /\
   den_k 0%Z 1%Z Z.add Z.mul K' [1; 2; 0]%nat = 0%Z.
+Proof. vm_compute. repeat split; reflexivity. Qed.
+
+(* non-vacuity of C18_relabel: a concrete 2x3x2 rank-1 run over Z (data 2 a o b o c, start a, b, c: every division is exact), two sweeps in the mode
+   order [2;0;1], relabelled by the 3-cycle p = [1;2;0] (mode order becomes [1;2;0]): the factor list of the relabelled run is the
+   permuted factor list of the original run, and it differs from the start *)
+Example C18_relabel_run_example :
+  let s := [2; 3; 2]%nat in
+  let X := den_dense 0%Z (mkDense s [6; 12; -6; -12; 12; 24; 2; 4; -2; -4; 4; 8]%Z) in
+  let p := [1; 2; 0]%nat in
+  let X' := fun i' => X (pick 0%nat (invperm p) i') in
+  let solve := fun (Y P : @matrix Z) => map (map (fun x => Z.div x (mget 0%Z Y 0%nat 0%nat))) P in
+  let scale := fun (_ : nat) (A : @matrix Z) => ([1%Z], A) in
+  let st := mkAls [1%Z] [ [[1]; [2]]; [[1]; [-1]; [2]]; [[3]; [1]] ]%Z [] in
+  let st' := mkAls (st_w st) (pick [] p (st_U st)) (st_P st) in
+  let dims := [2; 0; 1]%nat in
+  let r := als_iter 0%Z 1%Z Z.add Z.mul (fun U n => mttkrp_mat 0%Z 1%Z Z.add Z.mul s X U n 1%nat) solve scale 1%nat 2%nat dims st in
+  let r' := als_iter 0%Z 1%Z Z.add Z.mul (fun U n => mttkrp_mat 0%Z 1%Z Z.add Z.mul (pick 0%nat p s) X' U n 1%nat) solve scale 1%nat 2%nat
+              (map (fun m => index_of m p) dims) st' in
+  map (fun m => index_of m p) dims = [1; 2; 0]%nat /\ st_U r' = pick [] p (st_U r) /\ st_P r' = st_P r /\
+  st_U r = [ [[1]; [2]]; [[1]; [-1]; [2]]; [[6]; [2]] ]%Z.
 Proof. vm_compute. repeat split; reflexivity. Qed.
